@@ -116,7 +116,7 @@ def _tzif_type0(path):
 _LINE = re.compile(r'^\S+\s+(\w{3} \w{3}\s+\d+ \d\d:\d\d:\d\d \d+) UTC? = .* (\S+) isdst=(\d) gmtoff=(-?\d+)$')
 
 
-def step_function(zi_path, lo_year=1990, hi_year=2060):
+def step_function(zi_path, lo_year=1800, hi_year=2060):
     """Sorted list [(start, utoff, isdst, abbr)]; the first entry starts at -inf (None)."""
     out = subprocess.run(['zdump', '-v', '-c', '%d,%d' % (lo_year, hi_year), zi_path], stdout=subprocess.PIPE,
                          text=True).stdout
